@@ -218,7 +218,7 @@ func c02Check(c *run.Ctx, st *c02State, b []byte, family string, salt uint64) []
 	capped := false
 	c.Guard("Decode(Renderer)", detail, func() {
 		var z render.Renderer
-		if (salt>>24)%16 == 3 {
+		if (salt>>24)%8 == 3 {
 			// the recording rasterizer behind the public logging wrapper
 			c.Count("renders_through_rasterizer_logger", 1)
 			z.SetRasterizer(&raster.RasterizerLogger{Rasterizer: &st.rz}, rect)
